@@ -128,6 +128,8 @@ package kcache
                     (sameView {dom(c.items)} {val(c.items)} (evApplyD (old {dom(c.items)}) e) (evApplyV (old {val(c.items)}) e)))))
   ensures [events-carry-objects] (forall ((i Int)) (=> (and (<= 0 i) (< i (slen result)))
              (and (not (= (select (sarr result) i) vnil)) (not (= (evt-res (select (sarr result) i)) vnil)))))
+  requires [evt-has-a-type] (wfEvent {evt})
+  ensures [events-well-formed] (wfEvents result)
 @*/
 
 /*@ theory sync
@@ -242,6 +244,9 @@ package kcache
                 (and (= (select {dom(c.items)} k) (select (old {dom(c.items)}) k))
                      (=> (select {dom(c.items)} k) (= (select {val(c.items)} k) (select (old {val(c.items)}) k))))))))
   exit [returns-events] (= result {events})
+  loop 1 inv [events-so-far-are-well-formed] (wfEvents {events})
+  loop 2 inv [events-so-far-are-well-formed] (wfEvents {events})
+  ensures [events-well-formed] (wfEvents result)
 @*/
 
 /*@ func (*kcache._cache).doRefilter
@@ -262,6 +267,7 @@ package kcache
             (and (= (select {dom(c.items)} k) (stepDom (select (old {dom(c.items)}) k) (select (old {val(c.items)}) k) {c.filter} (select (sarr {list}) j)))
                  (=> (select {dom(c.items)} k)
                      (= (select {val(c.items)} k) (stepVal (select (old {dom(c.items)}) k) (select (old {val(c.items)}) k) {c.filter} (select (sarr {list}) j))))))))))
+  ensures [events-well-formed] (wfEvents result)
 @*/
 
 /*@ func (*kcache._cache).doList
@@ -315,14 +321,18 @@ package kcache
 /*@ iface kcache.cache.sync
   theory cachereq
   requires [list-elements-nonnil] (listNonNil $0)
+  ensures [events-well-formed] (wfEvents result0)
 @*/
 /*@ iface kcache.cache.update
   theory cachereq
   requires [event-carries-an-object] (and (not (= $0 vnil)) (not (= (evt-res $0) vnil)))
+  requires [event-is-well-formed] (wfEvent $0)
+  ensures [events-well-formed] (wfEvents result0)
 @*/
 /*@ iface kcache.cache.refilter
   theory cachereq
   requires [arguments] (and (listNonNil $0) (not (= $1 vnil)))
+  ensures [events-well-formed] (wfEvents result0)
 @*/
 
 /*@ func (*kcache.filterSubscription).distributeEvents
@@ -337,10 +347,38 @@ package kcache
   loop 1 inv [range] (and (<= 0 (+ {rangeindex} 1)) (<= (+ {rangeindex} 1) (slen {events})) (not {closed(s.outch)}))
   loop 1 inv [every-event-so-far-was-published-in-order-or-dropped-on-overflow] (and (= (+ nsent ndrop) (+ {rangeindex} 1)) (>= nsent 0) (>= ndrop 0))
   exit [every-event-was-published-in-order-or-dropped-on-overflow] (= (+ nsent ndrop) (slen {events}))
+  theory obj
+  requires [events-well-formed] (wfEvents {events})
 @*/
 
 /*@ neverclosed kcache.filterSubscription.refilterch
 @*/
+/*@ chaninv type:kcache.Event
+  theory obj
+  note every Event sent on any channel in the library is non-nil, carries an object and has one of the three types (asserted at every send, assumed at every receive)
+  requires [events-on-channels-are-well-formed] (wfEvent $val)
+@*/
+
+/*@ chaninv type:kcache.Subscription
+  note replies of the publisher actor to subscribe requests carry the subscription it created
+  requires [subscription-replies-are-non-nil] (not (= $val vnil))
+@*/
+/*@ chaninv type:[]meta/v1.Object
+  theory cachereq
+  note replies of the cache actor to List requests: a snapshot without nil elements
+  requires [list-replies-have-no-nil-element] (listNonNil $val)
+@*/
+/*@ neverclosed type:kcache.Subscription type:[]meta/v1.Object
+@*/
+
+/*@ chaninv type:[]kcache.Event
+  theory obj
+  note the replies of the cache actor to sync / update / refilter requests: every event in the batch is well-formed
+  requires [event-batches-on-channels-are-well-formed] (wfEvents $val)
+@*/
+/*@ neverclosed type:[]kcache.Event
+@*/
+
 /*@ chaninv kcache.filterSubscription.refilterch
   requires (not (= $val vnil))
 @*/
@@ -417,7 +455,6 @@ package kcache
   at call(update) set pendingEvt := false
   at call(FiltersEqual).after set pendingRefilter := (not $result)
   at call(refilter) set pendingRefilter := false
-  at recv(Events) assume [events-on-subscription-channels-are-non-nil-and-carry-objects] (=> $ok (and (not (= $val vnil)) (not (= (evt-res $val) vnil))))
   loop 1 inv [I1-not-ready-while-waiting-for-parent] (=> (not (= {preadych} vnil)) (not {ready}))
   loop 1 inv [I1b-preadych] (and (or (= {preadych} vnil) (= {preadych} (sub-ready {s.parent}))) (= parentReadySeen (= {preadych} vnil)))
   loop 1 inv [I2-ready-iff-readych-closed] (= {ready} {closed(s.readych)})
@@ -501,6 +538,8 @@ package kcache
 /*@ iface kcache.cache.Error
 @*/
 /*@ iface kcache.subscription.send
+  theory obj
+  requires [event-well-formed] (wfEvent $0)
 @*/
 
 /*@ func (*kcache.controller).distributeEvents
@@ -515,6 +554,7 @@ package kcache
   exit [every-event-handed-over-exactly-once-in-order] (and (= (slen handed) (slen {events}))
         (forall ((j Int)) (=> (and (<= 0 j) (< j (slen handed))) (= (select (sarr handed) j) (select (sarr {events}) j)))))
   at go() assert [opt:handlers-run-serially-on-the-actor-goroutine] false
+  requires [events-well-formed] (wfEvents {events})
 @*/
 
 /*@ func (*kcache.controller).run
@@ -544,6 +584,7 @@ package kcache
   at recv() set eventsFresh := false
   at recv(Result) set lastResult := (|kcache.listResult.list| $val)
   at recv(Result) set failure := (or failure (not (= (|kcache.listResult.err| $val) vnil)))
+  at recv(events) assume [the-watchers-output-channels-are-never-closed-the-watcher-proves-it-closes-nothing-and-nobody-else-can-send-or-close] $ok
   at recv(events) set lastEvt := $val
   at call(events).after assume [watcher-has-no-output-channel-before-its-first-reset] (=> (not resetCalled) (= $result vnil))
   at call(listResourceVersion) assert [version-of-this-list] (= $0 lastResult)
@@ -582,7 +623,6 @@ package kcache
   at call(sync) set pendingList := false
   at recv(events) set pendingEvt := true
   at call(update) set pendingEvt := false
-  at recv(events) assume [watch-events-are-non-nil-and-carry-objects] (and (not (= $val vnil)) (not (= (evt-res $val) vnil)))
   loop 1 inv [ready-iff-initialized] (= {initialized} {closed(c.readych)})
   loop 1 inv [nothing-published-before-ready] (=> (not {initialized}) (= ndist 0))
   loop 1 inv [reset-only-after-ready] (=> resetCalled {initialized})
@@ -654,6 +694,9 @@ package kcache
   at send(s.inch) assert [hands-over-the-given-event] (= $val {ev})
   at send(s.inch) set handed := true
   exit [nil-iff-the-event-was-taken-by-the-subscription] (= (= result vnil) handed)
+  theory obj
+  requires [event-well-formed] (wfEvent {ev})
+  implements kcache.subscription.send
 @*/
 
 /*@ func (*kcache.publisher).distributeEvent
@@ -668,6 +711,7 @@ package kcache
   loop 1 inv [each-visited-subscription-got-it-once] (forall ((x V)) (= (select cnt x) (ite (select $visited x) 1 0)))
   exit [every-subscription-gets-the-event-exactly-once] (forall ((x V)) (= (select cnt x) (ite (select {dom(s.subscriptions)} x) 1 0)))
   at go() assert [opt:handlers-run-serially-on-the-actor-goroutine] false
+  requires [event-well-formed] (wfEvent {evt})
 @*/
 
 /*@ iface kcache.Handler.OnInitialize
@@ -699,7 +743,6 @@ package kcache
   at call(OnInitialize) assert [with-the-cache-content-read-at-readiness] (and listOK (= $0 lastList))
   at call(OnInitialize) set ninit := 1
   at call(OnInitialize) set ncb := (+ ncb 1)
-  at recv(Events) assume [events-are-non-nil-and-carry-one-of-the-three-types] (=> $ok (and (not (= $val vnil)) (or (= (evt-type $val) |str!create|) (= (evt-type $val) |str!update|) (= (evt-type $val) |str!delete|))))
   at recv(Events) set lastEv := $val
   at recv(Events) set evPending := $ok
   at call(OnCreate) assert [one-callback-matching-the-event] (and (= ninit 1) (= lc 0) evPending (= (evt-type lastEv) |str!create|) (= $0 (evt-res lastEv)))
@@ -743,8 +786,7 @@ package kcache
 @*/
 /*@ chaninv kcache._cache.updatech
   theory cachereq
-  requires (and (not (= (|kcache.updateRequest.resultch| $val) vnil)) (not (= (|kcache.updateRequest.evt| $val) vnil))
-                (not (= (evt-res (|kcache.updateRequest.evt| $val)) vnil)))
+  requires (and (not (= (|kcache.updateRequest.resultch| $val) vnil)) (wfEvent (|kcache.updateRequest.evt| $val)))
 @*/
 /*@ chaninv kcache._cache.refilterch
   theory cachereq
@@ -1081,7 +1123,7 @@ package kcache
   at recv(resetch) set resetSeen := true
   at recv(resetch) set gver := $val
   at recv(retrych) set gver := $val
-  at recv(events) assume [session-output-is-never-closed-and-carries-non-nil-events-with-objects] (and $ok (not (= $val vnil)) (not (= (evt-res $val) vnil)))
+  at recv(events) assume [session-output-channels-are-never-closed-the-session-proves-it-closes-nothing] $ok
   at recv(events) set lastEvt := $val
   at recv(events) set gver := (ite $ok (obj-rv (evt-res $val)) gver)
   at store(outch) assert [output-channel-replaced-only-on-a-controller-reset] inReset
@@ -1416,7 +1458,6 @@ package kcache
 /*@ func (*kcache.publisher).Subscribe
   props C05 C12
   requires (and (not (= {s} vnil)) (not (= {s.subscribech} vnil)) (not (= {s.lc} vnil)) (not {closed(s.subscribech)}))
-  at recv(resultch) assume [the-reply-is-the-subscription-created-by-run-for-this-request] (and $ok (not (= $val vnil)))
   ensures (=> (= result1 vnil) (not (= result0 vnil)))
   ghost requested : Bool := false
   at send(subscribech) set requested := true
@@ -1586,6 +1627,7 @@ package kcache
   at send(updatech) set requested := true
   exit [error-iff-the-request-was-not-taken-because-of-shutdown] (= (= result1 vnil) requested)
   implements kcache.cache.update
+  requires [event-is-well-formed] (wfEvent {evt})
 @*/
 /*@ func (*kcache._cache).refilter
   props C15 C12
@@ -1606,7 +1648,6 @@ package kcache
   exit [error-iff-the-request-was-not-taken-because-of-shutdown] (= (= result1 vnil) requested)
   theory cachereq
   implements kcache.CacheReader.List
-  at recv(resultch) assume [the-reply-is-the-snapshot-run-computed-with-doList-for-this-request] (and $ok (listNonNil $val))
 @*/
 /*@ func (*kcache._cache).Get
   props C15 C12
